@@ -6,6 +6,10 @@ Streams
      refused iff the needed dimension is absent).
   B  Layout.as_percentage_of, Layout.fit_to_screen and BaseWriter._relativize_and_fit_to_screen on generated
      layouts incl. the 89.99/90/90.01 and 94.99/95/95.01 boundaries; oracles ok_layout_pct, ok_fit.
+  D  history: the SAME caption set object written 3-5 times in one process under different video sizes (640x360,
+     1280x720, 720x576, none, ...) by fresh writers or by one writer object whose options change; every write is checked
+     as in C against the expectation for its own options (a memo of relativized layouts keyed without the video size
+     shows as stale percentages or as a missing RelativizationError).
   C  end to end: DFXPWriter / SAMIWriter / WebVTTWriter x relativize x fit_to_screen x video sizes on caption sets with
      layouts at language, caption and node level.  Output parsed by lxml (DFXP regions), a CSS-margin scanner (SAMI)
      and a cue-settings scanner (WebVTT).  Checked: with relativization on every written length is a percentage
@@ -298,15 +302,19 @@ class Printed:
         return all(o == 1 for o in oks)
 
 
-def run_writer(fmt, cfg, acs):
+WRITERS = {"dfxp": DFXPWriter, "sami": SAMIWriter, "vtt": WebVTTWriter}
+
+
+def run_writer(fmt, cfg, acs, cs=None, writer=None):
+    """cs / writer: objects reused across a sequence of writes (history streams); default: fresh ones"""
     rel, fit, w, h = cfg
-    cs = posgen.build(acs)
-    kw = dict(relativize=rel, fit_to_screen=fit, video_width=w, video_height=h)
-    if fmt == "dfxp":
-        return impl.call(lambda: DFXPWriter(**kw).write(cs))
-    if fmt == "sami":
-        return impl.call(lambda: SAMIWriter(**kw).write(cs))
-    return impl.call(lambda: WebVTTWriter(**kw).write(cs))
+    if cs is None:
+        cs = posgen.build(acs)
+    if writer is None:
+        writer = WRITERS[fmt](relativize=rel, fit_to_screen=fit, video_width=w, video_height=h)
+    else:
+        writer.relativize, writer.fit_to_screen, writer.video_width, writer.video_height = rel, fit, w, h
+    return impl.call(lambda: writer.write(cs))
 
 
 def truthy(l):
@@ -357,12 +365,15 @@ def reached_layouts(fmt, acs):
     return [posgen.tup(l) for l in out if truthy(posgen.tup(l))]
 
 
-def check_case(fmt, cfg, acs, printed, res, shape=None):
-    """returns list of violation dicts / disagreement dicts appended to res"""
+def check_case(fmt, cfg, acs, printed, res, shape=None, cs=None, writer=None, history=None):
+    """returns an outcome tag; violations / disagreements are appended to res.
+    history: the configurations already written in this process with the same objects (recorded for the replay)"""
     rel, fit, w, h = cfg
-    out = run_writer(fmt, cfg, acs)
+    out = run_writer(fmt, cfg, acs, cs, writer)
     res["evaluations"] += 1
     base = {"replay": "writer", "fmt": fmt, "cfg": list(cfg), "input": acs}
+    if history is not None:
+        base.update(replay="history", history=[list(c) for c in history], same_writer=writer is not None)
     oq = lambda x: None if x is None else Some(exact(x))  # noqa: E731
     # ---- spec: must the writer refuse?
     reached = reached_layouts(fmt, acs)
@@ -572,12 +583,50 @@ def stream_writers(ctx, res):
     res["distribution"]["writer_excluded"] = "relativize off + fit on with absolute units (documented ValueError): not generated"
 
 
+HISTORY_DIMS = [(640, 360), (1280, 720), (720, 576), (None, None), (640, 360), (None, 360), (1920, 1080)]
+
+
+def run_history(fmt, acs, seq, same_writer, printed, res):
+    """one process, the SAME caption set object (same Layout objects), a sequence of writes under different video sizes
+    (a fresh writer per write, or one writer object whose options are changed): every write is checked against the
+    exact expectation for ITS OWN options - percentages recomputed, RelativizationError when the size is missing"""
+    cs = posgen.build(acs)
+    writer = WRITERS[fmt]() if same_writer else None
+    done, tags = [], []
+    for cfg in seq:
+        tags.append(check_case(fmt, cfg, acs, printed, res, None, cs, writer, history=list(done)))
+        done.append(cfg)
+    return tags
+
+
+def stream_history(ctx, res):
+    rng = ctx.rng
+    printed = Printed()
+    outcomes = {}
+    for i in range(ctx.n(60, 1500)):
+        fmt = ["dfxp", "sami", "vtt"][i % 3]
+        units = rng.choice([(0,), (0, 2), (0, 1, 3, 4)])
+        pool = [posgen.gen_layout(rng, units) for _ in range(2)]
+        acs = posgen.gen_capset(rng, units, nlangs=(1, 2), ncaps=(1, 2), levels=("lang", "cap", "node"), pool=pool,
+                                with_global=(fmt == "sami"), bare_text_layouts=(fmt == "vtt"))
+        k = rng.randint(3, 5)
+        dims = [HISTORY_DIMS[0]] + [rng.choice(HISTORY_DIMS[1:]) for _ in range(k - 1)]
+        fit = rng.random() < 0.5
+        seq = [(True, fit, w, h) for (w, h) in dims]
+        for t in run_history(fmt, acs, seq, same_writer=(i % 2 == 0), printed=printed, res=res):
+            outcomes[f"{fmt}:{t}"] = outcomes.get(f"{fmt}:{t}", 0) + 1
+        res["nontrivial"].add(("history", fmt, repr(acs), repr(dims)))
+    res["distribution"]["history_sequences(same layouts, different video sizes, one process)"] = ctx.n(60, 1500)
+    res["distribution"]["history_outcomes"] = outcomes
+
+
 def run(ctx):
     res = {"evaluations": 0, "nontrivial": set(), "violations": [], "disagreements": [], "distribution": {},
-           "streams": 3, "notes": []}
+           "streams": 4, "notes": []}
     stream_sizes(ctx, res)
     stream_layouts(ctx, res)
     stream_writers(ctx, res)
+    stream_history(ctx, res)
     res["rule"] = ("sizes: 5 units x value grid x axis x dimension; layouts: random layouts over unit subsets x video sizes, "
                    "fit on a boundary grid 89.99/90/90.01 x 94.99/95/95.01 + random percentage layouts; writers: DFXP/SAMI/"
                    "WebVTT x relativize x fit x 6 video sizes on caption sets with layouts at language/caption/node level. "
@@ -614,6 +663,12 @@ def replay(ctx, rec):
         lay = geom.mk_layout(posgen.tup(rec["input"]))
         o = geom.res_layout(impl.call(lambda: lay.fit_to_screen()))
         return oracle1(1303, [geom.w_layout(lay), o]) != 1, repr(o)[:300]
+    if tag == "history":
+        res = {"evaluations": 0, "violations": [], "disagreements": []}
+        seq = [tuple(c) for c in rec["history"]] + [tuple(rec["cfg"])]
+        run_history(rec["fmt"], rec["input"], seq, rec.get("same_writer", False), Printed(), res)
+        same = [v for v in res["violations"] if v.get("kind") == rec.get("kind")]
+        return bool(same), (same or [{"what": "ok"}])[0]["what"]
     if tag == "writer":
         res = {"evaluations": 0, "violations": [], "disagreements": []}
         cfg = tuple(rec["cfg"])
